@@ -283,20 +283,21 @@ Proof.
   - discriminate.
 Qed.
 
-(** ---- refutation witnesses (concrete histories; sizes are those of real lines) ---- *)
-(** W1 (both versions): send_open is logged, then the process dies after 10 of the 49 octets of
+(** ---- refutation witnesses: the histories harness/props/c20.py replays first on the implementation
+    (payloads 0, 1, 7 of its pool; sizes are the octet counts of the real lines) ---- *)
+(** W1 (both versions): send_open is logged, then the process dies after 10 of the 52 octets of
     the next record; the restart reads the torn tail and exits *)
-Definition w_torn : history := [Ev SendOpen true 49; Crash OpenReceived true 49 10].
+Definition w_torn : history := [Ev SendOpen true 52; Crash OpenReceived true 52 10].
 (** W1' : the record is complete but its newline is missing; the restart succeeds, the next
     record is glued to it, and the following restart exits *)
 Definition w_torn_nl : history :=
-  [Ev SendOpen true 49; Crash OpenReceived true 49 48; Ev SendOpen true 49; Restart].
-(** W2 (original code): threshold 100 octets; the second update fills the file, a new empty file
-    is opened, the agent restarts and numbers the next record 1 again *)
+  [Ev SendOpen true 52; Crash OpenReceived true 52 51; Ev SendOpen true 52; Restart].
+(** W2 (original code): threshold 100 octets; every update fills its file, a new empty file is
+    opened, the agent restarts and numbers the next record 1 again *)
 Definition w_rot : history :=
-  [Ev UpdateReceived true 60; Ev UpdateReceived true 60; Restart; Ev SendOpen true 49].
+  [Ev UpdateReceived true 147; Ev UpdateReceived true 147; Restart; Ev SendOpen true 52].
 (** W3 (original code): a payload the serialiser rejects leaves half a line and a newline *)
-Definition w_ser : history := [Ev OpenReceived false 41; Ev SendOpen true 49].
+Definition w_ser : history := [Ev OpenReceived false 49; Ev SendOpen true 52].
 
 Lemma refuted_torn_fixed : audit (observe (run cfg_fixed 1000 w_torn)) = false /\
                            exits (run cfg_fixed 1000 w_torn) = 1.
@@ -307,7 +308,7 @@ Proof. vm_compute. split; reflexivity. Qed.
 Lemma refuted_torn_orig : audit (observe (run cfg_orig 1000 w_torn)) = false.
 Proof. vm_compute. reflexivity. Qed.
 Lemma refuted_rot_orig : audit (observe (run cfg_orig 100 w_rot)) = false /\
-                         alive (run cfg_orig 100 [Ev UpdateReceived true 60; Ev UpdateReceived true 60; Restart])
+                         alive (run cfg_orig 100 [Ev UpdateReceived true 147; Ev UpdateReceived true 147; Restart])
                          = Some 1.
 Proof. vm_compute. split; reflexivity. Qed.
 Lemma refuted_ser_orig : audit (observe (run cfg_orig 1000 w_ser)) = false.
